@@ -140,8 +140,11 @@ def _offset_cow(F, A, b, prs, rep, tag):
         i_cow = idx_of(ev, lambda e: e["kind"] == "CALL" and (F.body(e["detail"].get("callee")) or {}).get("name") == "make_mut")
         i_unpark = idx_of(ev, lambda e: e["kind"] == "MAKE" and "ManuallyDrop" in str(e["detail"].get("via")))
         i_write = idx_of(ev, lambda e: e["kind"] == "HIDE" and "write" in str(e["detail"].get("via")))
-        if None in (i_read, i_park, i_cow, i_unpark, i_write) or not (i_read < i_park < i_cow < i_unpark < i_write):
-            ok, why = False, balance.path_report(F, b, p, "expected: ptr::read of the handle, parking in ManuallyDrop, Arc::make_mut on the parked copy, un-parking, ptr::write of the (possibly redirected) handle back")
+        i_guard = idx_of(ev, lambda e: e["kind"] == "DROP" and balance.guard_writes_back(F, A, e["detail"].get("adt")))
+        direct = None not in (i_read, i_park, i_cow, i_unpark, i_write) and i_read < i_park < i_cow < i_unpark < i_write
+        guarded = None not in (i_read, i_park, i_cow, i_guard) and i_read < i_park < i_cow < i_guard
+        if not (direct or guarded):
+            ok, why = False, balance.path_report(F, b, p, "expected: ptr::read of the handle, parking in ManuallyDrop, Arc::make_mut on the parked copy, then the (possibly redirected) handle written back - directly or by a write-back guard")
     if ok and prs:
         rep.ok("R-COW", key + "/order", cfg=tag)
     else:
@@ -163,6 +166,8 @@ def run(ctx, rep):
     from . import c03
 
     c03.rule_gate_def(ctx, rep)  # the schedule clause rests on the Acquire gate (and on C02's Release decrement)
+    balance.rule_writeback(ctx, rep)  # the redirect reaches the caller's handle on every exit
+    rep.floor("R-WRITEBACK", 1, "OffsetArc::make_mut")
 
 
 def main(argv):
